@@ -939,8 +939,8 @@ def computehash_rule(A, rule):
         rule.inst(f"_computehash: {norm(u)[:70]}")
         arg = u.args[0] if u.args else None
         inner = arg
-        if isinstance(inner, ast.Call) and norm(inner.func).endswith("_cast_to_bytes") and inner.args:
-            inner = inner.args[0]
+        if isinstance(inner, ast.Call) and norm(inner.func).endswith("_cast_to_bytes") and (inner.args or len(inner.keywords) == 1):
+            inner = inner.args[0] if inner.args else inner.keywords[0].value
         if isinstance(inner, ast.Call) and isinstance(inner.func, ast.Attribute) and inner.func.attr == "encode":
             inner = inner.func.value
         loops = [l for l in ast.walk(ch.node) if isinstance(l, ast.For) and any(u is x for x in ast.walk(l))]
@@ -1115,8 +1115,17 @@ def check_C15(A: Analysis, tier):
                     rc.fail(ev.func, ev.node, "the cid list is rewritten with something other than its own newline-terminated lines: the "
                             "one-pid-per-newline-terminated-line format is not preserved", A.p.loc(ev.func, ev.node))
     vr = A.p.func(Q("_verify_hashstore_references"))
-    cmp_ok = any(isinstance(n, ast.Compare) and isinstance(n.ops[0], (ast.Eq, ast.NotEq)) and {norm(n.left), norm(n.comparators[0])} == {"retrieved_cid", "cid"}
-                 for n in ast.walk(vr.node))
+    # the content error is raised exactly on inequality of the file's whole content with the cid argument
+    it_v = A.run(Q("_verify_hashstore_references"), "th")
+    cmp_ok = False
+    for k_, l_, st_, rv_ in it_v.exits:
+        if k_ == "raise" and l_ == "PidRefsContentError":
+            for f_, pol in st_.facts:
+                if f_[0] == "cmp" and f_[1] in ("==", "!=") and (pol is False if f_[1] == "==" else pol is True):
+                    sides = [f_[2], f_[3]]
+                    for i in (0, 1):
+                        if sides[i] == V(P("cid")) and sides[1 - i] and all(tag(t) == "content" for t in sides[1 - i]):
+                            cmp_ok = True
     rc.ob()
     rc.inst("_verify_hashstore_references: pid reference content compared with == to the cid")
     if not cmp_ok:
@@ -1147,8 +1156,12 @@ def check_C15(A: Analysis, tier):
     for fq, var in readers:
         f = A.p.func(fq)
         keys = set()
+        # the local that holds the parsed configuration: whatever is assigned from a yaml load call
+        loaded = {norm(a.targets[0]) for a in ast.walk(f.node) if isinstance(a, ast.Assign) and len(a.targets) == 1
+                  and isinstance(a.value, ast.Call) and norm(a.value.func).startswith("yaml.")}
+        names = loaded or {var}
         for n in ast.walk(f.node):
-            if isinstance(n, ast.Subscript) and norm(n.value) == var:
+            if isinstance(n, ast.Subscript) and norm(n.value) in names:
                 if isinstance(n.slice, ast.Constant):
                     keys.add(n.slice.value)
                 elif fq == Q("_load_properties"):
